@@ -155,7 +155,7 @@ def run_case(ctx):
     common.prelude(ctx)
     if src.flag("crashed_writer", 6):
         return crashed_writer_case(ctx, src)
-    m = world.gen_world(src, max_boxes=12, scale=("manyboxes", "farcorner", "manyfields"), scale_rate=80)
+    m = world.gen_world(src, max_boxes=12, scale=("manyboxes", "farcorner", "manyfields", "longdomain"), scale_rate=80)
     master = os.path.join(ctx.scratch, "master")
     world.write_plotfile(m, master)
     limit = m.nlev - 1
